@@ -21,6 +21,7 @@ EXPLANATION = (
     "import copies into job.path / job.fn(...) only, never overwriting (DestinationExistsError mapping, C04-b)."
     " (i) The import / export loops carry nothing between entries; a loop that prunes os.walk's dirnames iterates the live top-down generator; archive member paths are decomposed by position, never by searching the text of another path."
     ' (k) No glob-pattern enumeration of job files (hidden files); (l) the zip exporter writes file members only (the importer writes every member as a file); (m) the directory crawler and the schema anchor use the origin in the same spelling; a prefix built as `x + sep` needs a normalised x.'
+    ' One-shot iterators are not used for repeated membership tests (C16-i). (n) the state point derived from the path and the one in the state point file are compared as values (C16-n); (o) archives are unpacked outside the workspace (C16-o).'
 )
 UNDECIDED = ("The value-level round trip (ids, documents, file trees equal), archive member naming and formatted floats are not "
              "decided. Observed but not claimed: the schema-string converter drops literal text after the last field.")
